@@ -2,7 +2,7 @@ void h_ag_requestChunk(void)
 {
     struct array_plus_grid *m; size_t *n;
     g_request = nondet_size_t(); g_starts = nondet_unsigned(); g_stops = nondet_unsigned(); g_recycles = nondet_unsigned(); g_allocs = nondet_unsigned();
-    g_alloc_result = nondet_ulong(); g_next = nondet_int(); g_row_result = nondet_int(); g_row_current = nondet_int();
+    g_alloc_result = nondet_ulong(); g_next = nondet_int(); g_row_result = nondet_int(); g_row_current = nondet_int(); g_refiled = 0;
     array_plus_grid__requestChunk(m, n);
     CANARY();
 }
